@@ -5,6 +5,7 @@ use std::io::{BufRead, Write};
 
 mod gen_rt;
 mod gen_types;
+mod mq;
 mod pk;
 mod rt;
 mod st;
@@ -20,6 +21,7 @@ fn handle(line: &str) -> String {
         "pk" => pk::run(&args),
         "st" => st::run(&args),
         "T" | "V" => "decl".into(),
+        "mq" => std::panic::catch_unwind(|| mq::run(&args)).unwrap_or_else(|_| "panic".into()),
         "tv" => match args.as_slice() {
             [tid, state, rest @ ..] => match (tid.parse::<usize>(), state.parse::<usize>()) {
                 (Ok(tid), Ok(state)) => std::panic::catch_unwind(std::panic::AssertUnwindSafe(|| gen_types::dispatch_tv(tid, state, rest)))
